@@ -52,6 +52,7 @@ type JobConfig struct {
 	Vector     []uint64 `json:"vector,omitempty"`
 	WitnessFor []string `json:"witness_for,omitempty"`
 	WallMs     int      `json:"wall_ms,omitempty"`
+	Tag        string   `json:"tag,omitempty"` // echoed back (the runner's bookkeeping)
 	UnwindAssume []string `json:"unwind_assume,omitempty"` // loops of these functions: reaching the bound ends the path (assumption), e.g. probabilistic rejection sampling
 	BytesLens  []int    `json:"bytes_lens,omitempty"` // big.Int.Bytes(): explore only these minimal lengths of a symbolic value
 	BytesFull  bool     `json:"bytes_full,omitempty"` // assume DH results have no leading zero octet (C09 decides those cases)
